@@ -399,6 +399,8 @@ def correspond(ctx):
         ctx.dist('rxn:' + (real if isinstance(real, str) else 'ok'))
     small_exhaustive(ctx, s_comp, s_exact)
     _state['cases'] = cases
+    s_union = Stream(ctx, 'union')
+    union_stream(ctx, rng, raws, s_union, programs)
     s_fmt, s_read, s_tok, s_hash = Stream(ctx, 'fmt'), Stream(ctx, 'read'), Stream(ctx, 'tokens'), Stream(ctx, 'hash')
     format_and_read(ctx, rng, raws, cases, s_fmt, s_read, programs)
     cgr_tokens(ctx, rng, s_tok, programs)
@@ -410,7 +412,7 @@ def correspond(ctx):
     mirror_states(ctx, rng)
     mutator_histories(ctx, rng, raws, programs)
     disagreements = []
-    for s, primary in ((s_comp, True), (s_rxn, True), (s_fmt, True), (s_read, True), (s_tok, True), (s_rad, True), (s_map, True),
+    for s, primary in ((s_comp, True), (s_rxn, True), (s_fmt, True), (s_read, True), (s_tok, True), (s_rad, True), (s_map, True), (s_union, True),
                        (s_exact, False), (s_hash, False)):
         bad = s.run()
         if bad and primary:
@@ -426,6 +428,39 @@ def correspond(ctx):
     _state['disagreements'] = disagreements
     ctx.cov['programs'] = len(programs)
 
+
+
+def union_stream(ctx, rng, raws, s_union, programs):
+    """`reduce(or_, mols)` = Graph.union(remap=True) on 1-4 molecules whose numberings are disjoint, overlap partly or
+    coincide (remap relative to max of the left operand), compared in exact dict order"""
+    from functools import reduce
+    from operator import or_
+    small = [x for x in raws if len(x.atoms) <= 12]
+    for i in range(300 if ctx.quick else 4000):
+        k = rng.choice((1, 2, 2, 2, 3, 3, 4))
+        ms = []
+        for _ in range(k):
+            m = rng.choice(small)
+            kind = rng.choice(('one', 'one', 'random', 'block', 'far'))
+            ids = list(m.atoms)
+            if kind == 'one':
+                f = {n: 1 + j for j, n in enumerate(ids)}
+            elif kind == 'random':
+                f = dict(zip(ids, rng.sample(range(1, 3 * len(ids) + 8), len(ids))))
+            elif kind == 'block':
+                st = rng.randint(1, 15)
+                f = {n: st + j for j, n in enumerate(ids)}
+            else:
+                st = rng.randint(30, 60)
+                f = {n: st + 2 * j for j, n in enumerate(ids)}
+            ms.append(build(m.renamed(f), rng))
+        collide = any(set(a._atoms) & set(b._atoms) for a, b in itertools.combinations(ms, 2))
+        req = 'union %d %s' % (k, ' '.join(wire.mol_to_line(m) for m in ms))
+        real = outcome(lambda: 'ok ' + wire.mol_to_line(reduce(or_, ms)))
+        s_union.add(norm(req), real, {'union': i})
+        ctx.dist('union:collision=%d' % collide)
+        ctx.dist('union:k=%d' % k)
+    programs.update(('Graph.union', 'Graph.remap', 'Graph.__or__'))
 
 
 def bond_state_grid():
